@@ -130,14 +130,14 @@ def check(ctx):
     # (i) every (book, event) transition of the small universe; (ii) simulated behaviours, wider prices
     p_t, scn_t = ctx.tlc_gen("Gen_" + MODULE, "GenT_OrderBook.cfg" if ctx.quick else "GenT_OrderBook_thorough.cfg",
                              "transitions.ndjson", timeout=900)
-    nb, depth = (300, 30) if ctx.quick else (3000, 45)
+    nb, depth = (300, 30) if ctx.quick else (2000, 45)
     p_b, scn_b = ctx.tlc_gen("Gen_" + MODULE, "GenB_OrderBook.cfg" if ctx.quick else "GenB_OrderBook_thorough.cfg",
                              "behaviours.ndjson", simulate=(nb, depth), timeout=1200)
     ctx.sample({"kind": "TLC transition scenario (init book, one event, every allowed resulting view)", "scenario": scn_t[len(scn_t) // 2]})
     b0 = dict(scn_b[0])
     b0["steps"] = b0["steps"][:3]
     ctx.sample({"kind": "TLC simulated behaviour (first 3 of %d events)" % len(scn_b[0]["steps"]), "scenario": b0})
-    steps = 3000 if ctx.quick else 60000
+    steps = 3000 if ctx.quick else 40000
     for mode in ("direct", "manager"):
         run_scenarios(ctx, p_t, scn_t, mode, "transitions")
         run_scenarios(ctx, p_b, scn_b, mode, "behaviours")
